@@ -31,6 +31,7 @@ from collections import defaultdict
 from spyne.util import six
 from spyne.util.six.moves.collections_abc import Iterable as AbcIterable
 
+from spyne import BODY_STYLE_BARE
 from spyne.error import ValidationError
 from spyne.error import ResourceNotFoundError
 
@@ -102,6 +103,13 @@ class HierDictDocument(DictDocument):
 
             result_message = self._doc_to_object(ctx, body_class, doc,
                                                                  self.validator)
+
+            # an empty list is "no arguments" for a wrapped message but not a
+            # value of the (single, bare) argument of a bare method.
+            if doc is None and message is self.REQUEST and \
+                              ctx.descriptor.body_style is BODY_STYLE_BARE:
+                result_message = None
+
             ctx.in_object = result_message
 
         else:
